@@ -36,7 +36,7 @@ def line_protocol(
     if tags:
         output_str += ","
         output_str += ",".join(
-            "%s=%s" % (_escape_key(key), _escape_key(value))
+            "%s=%s" % (_escape_key(key), _escape_key(str(value)))
             for key, value in sorted(tags.items())
         )
     output_str += " "
